@@ -123,7 +123,10 @@ def gen_call(rng):
         if A == 1 and c["op"] == "decode":
             c["x"] = [0] * L if rng.random() < 0.5 else c["x"]
     elif r < 0.7:
-        A = max(A, 2); alphabet = rng.sample(pool, A); c["alphabet"] = alphabet
+        A = max(A, 2); alphabet = rng.sample(pool, A)
+        if rng.random() < 0.3:          # 'N' as an ordinary letter of the alphabet, with its own complement (not the unknown character)
+            alphabet[rng.randrange(A)] = 78
+        c["alphabet"] = alphabet
         perm = list(range(A))
         idx = list(range(A)); rng.shuffle(idx)
         while len(idx) >= 2:
